@@ -134,6 +134,7 @@ type Options struct {
 }
 
 func newExec(P *Program, C *Contracts, fn *ssa.Function, opts *Options) *Exec {
+	theProgram = P
 	ex := &Exec{P: P, C: C, root: fn, rootKey: funcKey(fn), opts: opts,
 		declared: map[string]bool{}, universe: map[string]string{}, axiomsOn: map[string]bool{},
 		strLits: map[string]string{}, typeTags: map[string]int{}, notes: map[string]bool{},
